@@ -214,7 +214,7 @@ func genAcc(t *rapid.T) accCase {
 	return c
 }
 
-var chkAcc = harness.Define("typed-access", genAcc, runAcc)
+var chkAcc = harness.Define("typed-access", genAcc, runAcc).Repeated(2)
 
 func TestRandom(t *testing.T) {
 	chkAcc.Rapid(t, harness.Pick(60000, 2000000))
